@@ -303,7 +303,12 @@ func genPNG(rt *rapid.T, maxICC int) Case {
 			p.Pre = append(p.Pre, ch)
 		}
 		if i < n {
-			p.Pre = append(p.Pre, build.Chunk{Type: rapid.SampledFrom([]string{"gAMA", "tEXt", "pHYs", "prVt"}).Draw(rt, "anc"), Data: make([]byte, rapid.IntRange(0, 5000).Draw(rt, "anclen"))})
+			typ, fixed := gen.PNGAncillary(rt, "anc", p.ColorType)
+			ln := rapid.IntRange(0, 5000).Draw(rt, "anclen")
+			if fixed >= 0 {
+				ln = fixed
+			}
+			p.Pre = append(p.Pre, build.Chunk{Type: typ, Data: make([]byte, ln)})
 		}
 	}
 	if class == "none" {
